@@ -126,8 +126,27 @@ def sort_of(t):
 _fresh = itertools.count()
 
 
+_skolem = []      # stack of bound-variable lists: fresh symbols created while evaluating under a binder depend on the bound variables
+
+
 def fresh(name, sort):
-    return z3.Const('%s!%d' % (name, next(_fresh)), sort)
+    k = next(_fresh)
+    if _skolem and _skolem[-1]:
+        vs = _skolem[-1]
+        return z3.Function('%s!%d' % (name, k), *[v.sort() for v in vs], sort)(*vs)
+    return z3.Const('%s!%d' % (name, k), sort)
+
+
+class skolem_over:
+    """with skolem_over([v]): every fresh() symbol is a function of v (so facts about it can be closed under forall v)"""
+    def __init__(self, vs):
+        self.vs = list(vs)
+
+    def __enter__(self):
+        _skolem.append(self.vs)
+
+    def __exit__(self, *a):
+        _skolem.pop()
 
 
 class SV:
